@@ -248,6 +248,14 @@ func (e *Engine) callExternal(fn *types.Func, recv Value, args []Value, cx *ast.
 			st.assume(mkCmp(">=", enc.Len, mkInt(0)))
 			return VTuple{enc, VTerm{T: e.fresh("err", SRef), Typ: sig.Results().At(1).Type()}}
 		}
+	case "encoding/csv.NewWriter":
+		// documented defaults of the writer's dialect: ',' separator, "\n" line ends (the reader's defaults mirror them)
+		r := e.fresh("csvwriter", SRef)
+		st.assume(mkNot(mkEq(r, mkConst("nil", SRef))))
+		e.localRefs[r.String()] = true
+		st.mem["fld:"+r.String()+".Comma"] = mkInt(',')
+		st.mem["fld:"+r.String()+".UseCRLF"] = tFalse
+		return VTerm{T: r, Typ: fn.Type().(*types.Signature).Results().At(0).Type()}
 	case "encoding/csv.Writer.Write":
 		// buffered: what was written is pending until the next Flush
 		st.mem["csvpending:"+term(recv).String()] = tTrue
